@@ -357,6 +357,9 @@ func (s *symCtx) evalCall(c *ssa.Call, idx int) []string {
 		argSets = append(argSets, s.eval(a))
 	}
 	callee := cc.StaticCallee()
+	if callee != nil && symOpaque(callee) {
+		callee = nil
+	}
 	if callee != nil && callee.Blocks != nil && s.L.NonTest[originOf(callee)] && len(s.stack) < s.maxD && !s.stack[callee] {
 		child := &symCtx{L: s.L, assume: s.assume, maxD: s.maxD, binds: map[*ssa.Parameter][]string{}, feas: map[*ssa.Function]map[*ssa.BasicBlock]bool{},
 			feasE: map[*ssa.Function]map[[2]int]bool{}, parent: s, stack: map[*ssa.Function]bool{}, unknown: s.unknown, depth: s.depth}
@@ -411,4 +414,19 @@ func (s *symCtx) evalFn(fn *ssa.Function, idx int) []string {
 		}
 	}
 	return uniq(out)
+}
+
+// symOpaque: functions whose result is an allocator decision, never inlined (their term is the call itself).
+func symOpaque(fn *ssa.Function) bool {
+	if fn.Signature.Recv() == nil {
+		return false
+	}
+	r := fn.Signature.Recv().Type().String()
+	if strings.HasSuffix(r, genPkg+".VarPool") {
+		return true
+	}
+	if strings.HasSuffix(r, genPkg+".InjectorParam") && (fn.Name() == "Name" || fn.Name() == "ChannelName") {
+		return true
+	}
+	return false
 }
